@@ -126,6 +126,12 @@ func runCLIOne(env *kernel.Env, scr, bin, pathDir string, ref progRef, reps int)
 						cliAction{"go/sqlcrud", filepath.Join(outDir, fmt.Sprintf("crud%d.go", i))})
 				}
 				conf[abs] = acts
+				if i == 0 {
+					// the same source under a second spelling, with an action of its
+					// own: both entries are processed, whatever the order of the keys
+					alt := filepath.Dir(abs) + string(filepath.Separator) + "." + string(filepath.Separator) + filepath.Base(abs)
+					conf[alt] = []cliAction{{"typescript/types", filepath.Join(outDir, "types_alt.ts")}}
+				}
 			}
 			b, _ := json.Marshal(conf)
 			confFile := filepath.Join(outDir, "conf.json")
